@@ -501,6 +501,8 @@ func epDist(c *RunCtx, cfg distCfg) *Result {
 var ledgerFuncs = []string{"processNextJob", "goEventLoop", "handleQueueSubscription", "notifyToPullNextJobs", "job.Close", "job.ack", "setAckId", "initPoolNode", "WithDistributed", "WithPersistent", "start", "freePoolNode", "sendToNextChannel", "parseToJob", "Add"}
 
 func runC11(c *RunCtx) {
+	// several acknowledging adapters behind one worker, with refused dequeues: every delivery is acknowledged on its own adapter
+	stratAdapterPrograms(c, 160, 1200)
 	// entries that are dropped without being processed (undecodable, foreign) must not be acknowledged
 	for v := 0; v < c.Q(120, 1200); v++ {
 		c.Program(fmt.Sprintf("bad/%d", v), func(p *Prog) {
